@@ -136,6 +136,8 @@ package buffer
 //@   ensures[F,C13] @reuse: forall(i, 0, old(len(z.pool)), old(z.pool[i].active) || ptr(result) != old(ptr(z.pool[i].buf))) ==> fresh(result) || (ptr(result) == ptr(oldBuf) && old(z.tail) == 0 && old(z.pos) >= len(oldBuf))
 // unless the current buffer is reused in place, it becomes the head block of the pool, with exactly the length given
 //@   ensures[F,C13] @retired: ptr(result) != ptr(oldBuf) ==> z.head >= 1 && z.head <= len(z.pool) && sameSlice(z.pool[z.head-1].buf, oldBuf) && z.pool[z.head-1].active
+// reusing the current buffer in place spends the freed credit that covered it; in every other case the credit is untouched
+//@   ensures[F,C13,perpath,local] @credit: z.pos == ite(swap == -1, old(z.pos) - len(oldBuf), old(z.pos))
 //@   loop 1 invariant 0 <= i && swap == -1
 
 //@ func StreamLexer.read
@@ -208,6 +210,8 @@ package buffer
 //@   ensures[F]  slView(z)
 //@   ensures[F,C13] @abs: slAbs(z) + z.pos == old(slAbs(z) + z.pos) && slAbs(z) + z.prevStart == old(slAbs(z) + z.prevStart) && z.r == old(z.r)
 // the token is the stream from the absolute start to the absolute position (when that much data exists)
+// what is shifted has been read: unless the reader has ended or failed, the buffer is filled up to the position
+//@   ensures[F,C13] @filled: z.r != nil && z.err == nil ==> z.pos <= len(z.buf)
 //@   ensures[F,C13] @token: z.r != nil && z.pos <= len(z.buf) ==> len(result) == old(z.pos - z.start) && forall(i, 0, len(result), result[i] == stream(z.r, old(slAbs(z) + z.start) + i))
 
 //@ func StreamLexer.ShiftLen
